@@ -15,12 +15,15 @@ import (
 	"strings"
 	"testing"
 	"time"
+	"unicode"
+	"unicode/utf8"
 
 	"github.com/indexsupply/shovel/jrpc2"
 	"github.com/indexsupply/shovel/shovel"
 	"github.com/indexsupply/shovel/shovel/config"
 	"github.com/indexsupply/shovel/shovel/web"
 	"github.com/indexsupply/shovel/wctx"
+	"github.com/indexsupply/shovel/wstrings"
 	"github.com/jackc/pgx/v5/pgxpool"
 	"pgregory.net/rapid"
 
@@ -41,6 +44,14 @@ var c15Hostile = []string{
 	c15Marker + ")",
 	c15Marker + ",y",
 	c15Marker + "\n",
+	// every metacharacter directly after a non-ASCII letter
+	c15Marker + "é;",
+	c15Marker + "é)é;dropé tableé xé;",
+	"世" + c15Marker + "世'",
+	// shapes that an index / unique entry may legally have, with a tail
+	"f desc ); drop table " + c15Marker + "; --",
+	"f asc " + c15Marker,
+	"f  desc\t" + c15Marker + ")",
 }
 
 // c15Config builds a configuration tree (as JSON values) that exercises every
@@ -532,6 +543,42 @@ func TestC15_DashboardRun(t *testing.T) {
 		ev.Case(ran, "dashboard-run "+p.path+"="+hostile, fmt.Sprintf("storedAndRun=%v", ran), fmt.Sprintf("listed=%v", listed))
 		if ran && ev.WantSample(4) {
 			ev.Sample(4, map[string]any{"position": p.path, "value": hostile, "requests": node.Counts()})
+		}
+	})
+}
+
+// TestC15_Safe: the identifier check itself against its documented rule (every
+// character is a letter, a digit, '_' or '-'), over strings mixing ASCII,
+// non-ASCII letters, metacharacters, symbols and invalid UTF-8.
+func TestC15_Safe(t *testing.T) {
+	ev := evid.For("C15", "Safe")
+	alphabet := []string{"a", "Z", "0", "9", "_", "-", "é", "ß", "世", "界", "Ω", ";", "'", "\"", ")", "(", " ", ",", ".", "\n", "\x00", "€", "😀", "\xff", "\xc3", "`", "$", "*", "=", "/", "\\", "٣"}
+	rapid.Check(t, func(rt *rapid.T) {
+		n := rapid.IntRange(0, 12).Draw(rt, "len")
+		var sb strings.Builder
+		for i := 0; i < n; i++ {
+			sb.WriteString(rapid.SampledFrom(alphabet).Draw(rt, "piece"))
+		}
+		s := sb.String()
+		want := true
+		multi, meta := false, false
+		for i := 0; i < len(s); {
+			r, size := utf8.DecodeRuneInString(s[i:])
+			if size > 1 {
+				multi = true
+			}
+			if !(unicode.IsLetter(r) || unicode.IsDigit(r) || r == '_' || r == '-') {
+				want = false
+				meta = true
+			}
+			i += size
+		}
+		if got := wstrings.Safe(s) == nil; got != want {
+			rt.Fatalf("VERIF-VIOLATION property=C15 wstrings.Safe(%q) accepted=%v, the rule says %v", s, got, want)
+		}
+		ev.Case(multi && meta, s, fmt.Sprintf("accepted=%v", want), fmt.Sprintf("multibyte=%v", multi))
+		if multi && meta {
+			ev.Sample(4, s)
 		}
 	})
 }
